@@ -334,7 +334,7 @@ func bn254Subjects(r *Rng) []*subject {
 		}
 		y := f.NewRaw(r.Below(f.Q))
 		z := f.NewRaw(new(big.Int).Sub(f.Q, big.NewInt(1)))
-		subs = append(subs, &subject{name: fname + ".text", shared: []any{y, z}, run: func(int) any {
+		subs = append(subs, &subject{name: fname + ".text", shared: []any{y.Interface(), z.Interface()}, run: func(int) any {
 			var out []any
 			for _, e := range []reflect.Value{y, z} {
 				out = append(out, method(e, "Text").Call([]reflect.Value{reflect.ValueOf(10)})[0].String(),
